@@ -217,6 +217,7 @@ def ev_kinds(case, ctx):
     ctx.count("kinds")
     ctx.nontrivial(cfg)
     runs = []
+    filesets = []       # (out_base, reference run, compressed): the written files hold the physical maps too
     if kind in ("3d", "4d"):
         cube = np.stack([base + 8 * k for k in range(3)])
         write(f1, cube if kind == "3d" else cube[None])
@@ -232,6 +233,10 @@ def ev_kinds(case, ctx):
         with fits.open(f1, mode="update", do_not_scale_image_data=True) as hl:
             hl[0].header["BSCALE"] = 0.5
         runs.append((bane(f0, grid, box, cores, None, True), bane(f1, grid, box, cores, None, True), "BSCALE=0.5 float32"))
+        runs.append((runs[0][0], bane(f1, grid, box, cores, None, True, out_base=os.path.join(d, "outb")), "BSCALE=0.5 float32, maps also written to files"))
+        filesets.append((os.path.join(d, "outb"), runs[0][0], False))
+        runs.append((runs[0][0], bane(f1, grid, box, cores, None, True, out_base=os.path.join(d, "outbc"), compressed=True), "BSCALE=0.5 float32, compressed files"))
+        filesets.append((os.path.join(d, "outbc"), runs[0][0], True))
     elif kind == "bscale_int16":
         raw = np.asarray(np.round(base * 64), dtype=np.int16)
         write(f0, raw * 0.25)
@@ -241,6 +246,8 @@ def ev_kinds(case, ctx):
             hl[0].header["CDELT1"] = -0.01
             hl[0].header["CDELT2"] = 0.01
         runs.append((bane(f0, grid, box, cores, None, True), bane(f1, grid, box, cores, None, True), "BSCALE=0.25 int16"))
+        runs.append((runs[0][0], bane(f1, grid, box, cores, None, True, out_base=os.path.join(d, "outi")), "BSCALE=0.25 int16, maps also written to files"))
+        filesets.append((os.path.join(d, "outi"), runs[0][0], False))
     elif kind == "compressed":
         write(f0, base)
         ob0, ob1 = os.path.join(d, "outp"), os.path.join(d, "outc")
@@ -259,6 +266,23 @@ def ev_kinds(case, ctx):
                     ctx.violation("written %s file differs from the returned map" % sfx, "files_value|" + cfg)
         except Exception as e:
             ctx.violation("output files unreadable: %r (%s)" % (e, cfg), "files_raise|" + cfg)
+    for ob, (s0, r0), compressed in filesets:
+        if s0 != "ok" or r0 is None:
+            continue
+        try:
+            for k_, sfx in enumerate(("bkg", "rms")):
+                fn = "%s_%s.fits" % (ob, sfx)
+                got = np.array(fits_tools.expand(fn)[0].data if compressed else fits.getdata(fn), dtype=np.float64)
+                if compressed:
+                    okf = got.shape == r0[k_].shape and close32(got[::grid[0], ::grid[1]], r0[k_][::grid[0], ::grid[1]], 1.0)[0]
+                else:
+                    okf = got.shape == r0[k_].shape and close32(got, r0[k_], 1.0)[0]
+                if not okf:
+                    ctx.violation("%s file written for a BSCALE input does not hold the physical map (%s%s): file median %.6g, map median %.6g" % (
+                        sfx, cfg, ", compressed" if compressed else "", float(np.nanmedian(got)), float(np.nanmedian(r0[k_]))), "bscale_file|%s,%s" % (cfg, sfx))
+                os.remove(fn)
+        except Exception as e:
+            ctx.violation("files written for a BSCALE input are unreadable: %r (%s)" % (e, cfg), "bscale_file_raise|" + cfg)
     for (s0, r0), (s1, r1), what in runs:
         if s0 != "ok" or r0 is None:
             ctx.violation("plain 2-D reference run failed (%s): %s %r" % (cfg, s0, r0), "kinds_ref|" + cfg)
